@@ -65,6 +65,8 @@ var c17Paths = []string{
 	"langs.en", `langs["en"]`, "langs.de", "langs.fr", "hits[idk]",
 	// arrays (by value, nested, behind a pointer)
 	"cells[1]", "rows[0][1]", "pcells[2]", "cells[3]", "rows[2][0]",
+	// unexported fields, however reached
+	`d["u"]`, "d.Next.u", "d.M.k.u",
 }
 
 type c17Lang string
@@ -95,12 +97,15 @@ func c17Extra(vars VarMap, present map[string]bool) {
 func H_C17_paths() {
 	root, present := c17Build()
 	p := ndChoice("path", len(c17Paths))
-	form := ndChoice("form", 6)
+	form := ndChoice("form", 7)
 	path := c17Paths[p]
 	var src string
 	switch form {
 	case 0:
 		src = `{{ isset(` + path + `) }}`
+	case 6:
+		// the same path looked up again and again gives the same answer every time
+		src = `{{ isset(` + path + `) }}{{ isset(` + path + `) }}{{ isset(one, ` + path + `) }}`
 	case 1:
 		src = `{{ ` + path + ` | isset }}`
 	case 3:
@@ -115,7 +120,7 @@ func H_C17_paths() {
 	if path == "anyKey[sliceKey]" || path == "d.L[1%zero]" {
 		// piped, the operand is evaluated before isset sees it, and jet lets Go runtime
 		// errors of ordinary evaluation propagate: only the direct forms are claimed
-		vfAssume(form == 0 || form == 2)
+		vfAssume(form == 0 || form == 2 || form == 6)
 	}
 	set := hxSet(nil, "/m.jet", src)
 	vars := make(VarMap)
@@ -132,16 +137,28 @@ func H_C17_paths() {
 		// be evaluated is an ordinary evaluation error there, so only valid operands are claimed
 		if err != nil {
 			vfAssert(!present[path], "piping an existing value into isset does not fail")
+			// an operand that evaluates (to nothing: an absent key, a nil) is not an error either
+			v2 := make(VarMap)
+			v2.Set("d", root)
+			v2.Set("one", 1)
+			c17Extra(v2, map[string]bool{})
+			_, plainErr := hxExec(hxSet(nil, "/p.jet", `{{ x := `+path+` }}`), "/p.jet", v2, nil)
+			vfAssert(plainErr != nil, "piping an operand that evaluates without error into isset does not fail")
 			return
 		}
 	}
 	vfAssert(err == nil, "isset never fails")
+	t, f := "true", "false"
+	if form == 6 {
+		t, f = "truetruetrue", "falsefalsefalse"
+	}
 	if present[path] {
 		vfReach("true")
-		vfAssert(out == "true", "existing non-nil value (zero values included) is set")
+		vfAssert(out == t, "existing non-nil value (zero values included) is set")
 	} else {
 		vfReach("false")
-		vfAssert(out == "false", "missing step or nil value is not set")
+		vfNote(out)
+		vfAssert(out == f, "missing step or nil value is not set")
 	}
 }
 
